@@ -148,6 +148,8 @@ def run_pool(jobs, nproc):
         pending[(kind, key)] = 1
         todo.append((kind, key, modnames, tier, pid, {}))
     meta = {(k, key): (modnames, tier, pid) for k, key, modnames, tier, pid in jobs}
+    t_pool = time.time()
+    FN_BUDGET_S = int(os.environ.get("PYVC_POOL_BUDGET_S", "1500"))
     if todo:
         with mp.get_context("fork").Pool(max(1, nproc)) as pool:
             inflight = [pool.apply_async(_path_worker, (t,)) for t in todo]
@@ -164,6 +166,9 @@ def run_pool(jobs, nproc):
                     parts[k].append(part)
                     pending[k] -= 1
                     stop = part.get("status") == "crash" or (part.get("undecided_reason") or "").startswith(("UNSUPPORTED", "SPEC-ERROR", "recursion"))
+                    if not stop and k not in truncated and time.time() - t_pool > FN_BUDGET_S:
+                        # wall-clock budget of one pool run: the remaining paths are not explored (verdict: undecided)
+                        truncated[k] = f"time budget {FN_BUDGET_S}s exceeded"
                     if not stop and k not in truncated:
                         modnames, tier, pid = meta[k]
                         for alt in part.get("alts", []):
@@ -262,7 +267,7 @@ def main(argv=None) -> int:
         if r.get("status") != "undecided" or r.get("cached"):
             return False
         reason = r.get("undecided_reason") or ""
-        if reason.startswith(("UNSUPPORTED", "SPEC-ERROR", "recursion", "VACUOUS")) or "path budget" in reason:
+        if reason.startswith(("UNSUPPORTED", "SPEC-ERROR", "recursion", "VACUOUS")) or "path budget" in reason or "time budget" in reason:
             return False
         open_obs = [o for o in r.get("obligations", []) if o["status"] != "proved"]
         return bool(open_obs) and all(o["status"] == "undecided" and any(w in (o.get("why") or "") for w in ("unknown", "timeout", "canceled")) for o in open_obs)
